@@ -37,7 +37,65 @@ structure Sph (K : Type) where
 /-- exceptions raised by the modelled code. -/
 inductive Err where
   | valueError
+  | indexError
   deriving DecidableEq, Repr
+
+/-- the row `(x, y, z)` of an `(N, 3)` array. -/
+def Vec3.tup {K : Type} (v : Vec3 K) : K × K × K := (v.x, v.y, v.z)
+
+/-- component `k` (column index of an `(N, 3)` array) of a point; columns `≥ 2` read `z`
+(only `k < 3` is ever asked for). -/
+def Vec3.comp {K : Type} (v : Vec3 K) (k : Nat) : K :=
+  match k with
+  | 0 => v.x
+  | 1 => v.y
+  | _ => v.z
+
+/-- the row `(r, θ, φ)` read as spherical coordinates. -/
+def Sph.ofTup {K : Type} (t : K × K × K) : Sph K := ⟨t.1, t.2.1, t.2.2⟩
+
+/-- A NumPy array of floats as the generated array code sees it: its shape and its entries in C order. -/
+structure NdArr (K : Type) where
+  shape : List Nat
+  flat : Nat → K
+
+/-- `a.ndim`. -/
+def NdArr.ndim {K : Type} (a : NdArr K) : Nat := a.shape.length
+
+/-- `a.size`. -/
+def NdArr.size {K : Type} (a : NdArr K) : Nat := a.shape.foldl (· * ·) 1
+
+/-- row `j` of a two-dimensional array with (at least) three columns, as a triple. -/
+def NdArr.row3 {K : Type} (a : NdArr K) (j : Nat) : K × K × K :=
+  let c := a.shape.getD 1 0
+  (a.flat (c * j), a.flat (c * j + 1), a.flat (c * j + 2))
+
+/-- the `(n, 3)` array whose rows are the points `P 0, …, P (n-1)`. -/
+def NdArr.ofRows {K : Type} (n : Nat) (P : Nat → Vec3 K) : NdArr K :=
+  ⟨[n, 3], fun t => (P (t / 3)).comp (t % 3)⟩
+
+/-- the same data as a one-dimensional array of length `3 n` (what a caller hands over as a single point `(3,)`). -/
+def NdArr.ofRowsFlat {K : Type} (n : Nat) (P : Nat → Vec3 K) : NdArr K :=
+  ⟨[3 * n], fun t => (P (t / 3)).comp (t % 3)⟩
+
+/-- `a.reshape(dims)` in C order (the data do not move): at most one entry `-1` (inferred), no other negative
+entry, the sizes must agree; `none` = `ValueError`. -/
+def pyReshape {K : Type} (a : NdArr K) (dims : List Int) : Option (NdArr K) :=
+  let known := dims.filter (fun d => d != -1)
+  if dims.any (fun d => decide (d < -1)) || decide (known.length + 1 < dims.length) then none else
+  let prod := known.foldl (fun p d => p * d.toNat) 1
+  if known.length = dims.length then
+    (if prod = a.size then some { a with shape := dims.map Int.toNat } else none)
+  else if prod = 0 ∨ a.size % prod ≠ 0 then none
+  else some { a with shape := dims.map fun d => if d = -1 then a.size / prod else d.toNat }
+
+/-- `old[c:] = new[c:]` on rows of three columns (`X[a:b, c:] = Y[:, c:]`, row by row). -/
+def colsFrom {K : Type} (c : Nat) (old new : K × K × K) : K × K × K :=
+  match c with
+  | 0 => new
+  | 1 => (old.1, new.2.1, new.2.2)
+  | 2 => (old.1, old.2.1, new.2.2)
+  | _ => old
 
 section numeric
 variable {K : Type} [Add K] [Sub K] [Mul K] [Div K] [Neg K] [NatCast K] [Elem K]
@@ -71,6 +129,9 @@ structure AGrid (K : Type) where
   regenW : Nat → Nat → K
   /-- `AngularGrid(degree=degrees[i], method=method).points[k]` -/
   regenPts : Nat → Nat → Vec3 K
+
+/-- `self.points` as an array of shape `(N, 3)`. -/
+def AGrid.pointsArr (g : AGrid K) : NdArr K := NdArr.ofRows (g.idx g.nShells) g.pts
 
 /-- number of points of shell `i`: `indices[i+1] - indices[i]`. -/
 def AGrid.size (g : AGrid K) (i : Nat) : Nat := g.idx (i + 1) - g.idx i
